@@ -18,7 +18,7 @@ pub fn salt(prop: &str) -> u64 {
 /// Oracles whose failure the property's check reports.
 pub fn oracles(prop: &str) -> Vec<&'static str> {
     match prop {
-        "C01" => vec!["result", "panic", "contents", "fsck-logical", "scan", "open"],
+        "C01" | "C16" => vec!["result", "panic", "contents", "fsck-logical", "scan", "open"],
         "C05" => vec!["fsck", "dbcheck"],
         "C06" => vec!["drop-trace", "err-trace", "ro-write", "ro-kind", "accounting"],
         "C07" => vec!["sweep", "result", "scan", "seek", "range", "filter", "cursor-panic", "panic"],
@@ -176,6 +176,8 @@ pub fn execute(case: &Case) -> Verdict {
         "crash" => crate::crash::execute(case),
         "fault" => crate::fault::execute(case),
         "corrupt" => crate::corrupt::execute(case),
+        "long" => crate::long::execute(case),
+        "cfg" => crate::cfg::execute(case),
         other => Verdict { harness_error: Some(format!("unknown engine {}", other)), ..Default::default() },
     }
 }
